@@ -1,7 +1,7 @@
 (** C08 — property theorems only (proved in Mgr/SortOrderProofs.v and Mgr/LevelSwap{Inv,WF,Sem,Proofs,Order}.v). *)
 From Coq Require Import List Arith Permutation NArith PArith FMapPositive.
 From OxiVerif Require Import Mgr.SortOrder Mgr.SortOrderProofs.
-From OxiVerif Require Import DD.Table DD.TableProofs Mgr.LevelSwap Mgr.LevelSwapSem Mgr.LevelSwapProofs Mgr.LevelSwapOrder.
+From OxiVerif Require Import DD.Table DD.TableProofs Mgr.LevelSwap Mgr.LevelSwapBase Mgr.LevelSwapSem Mgr.LevelSwapProofs Mgr.LevelSwapOrder.
 Import ListNotations.
 
 (** ** sort_order: from the requested relative order to a target permutation *)
@@ -121,12 +121,13 @@ Theorem C08_cb_done_sorted : forall s0 st,
 Proof. exact cb_done_sorted. Qed.
 Print Assumptions C08_cb_done_sorted.
 
-(** ** level_swap / level_down on two adjacent levels of a BDD (model: Mgr/LevelSwap.v) *)
+(** ** level_swap / level_down on two adjacent levels of a BDD or MTBDD (model: Mgr/LevelSwap.v;
+    [bink k] = [k = KBdd \/ k = KMtbdd]: binary nodes, no complement tags, rule "children equal") *)
 
 (* the table after the swap is well-formed again: ordered, reduced, per-level unique,
    stored level numbers up to date, variable/level maps mutually inverse permutations *)
 Theorem C08_level_swap_wf : forall s i,
-  WF s -> s_kind s = KBdd -> S i < nlevels s -> WF (level_swap s i).
+  WF s -> bink (s_kind s) -> S i < nlevels s -> WF (level_swap s i).
 Proof. exact level_swap_wf. Qed.
 Print Assumptions C08_level_swap_wf.
 
@@ -141,7 +142,7 @@ Print Assumptions C08_level_swap_maps.
 
 (* the handle list is unchanged and every handle's node is still stored under its id *)
 Theorem C08_level_swap_handles : forall s i,
-  WF s -> s_kind s = KBdd -> S i < nlevels s ->
+  WF s -> bink (s_kind s) -> S i < nlevels s ->
   s_handles (level_swap s i) = s_handles s
   /\ forall h, In h (s_handles s) -> ref_ok (level_swap s i) (eref (snd h)).
 Proof.
@@ -152,7 +153,7 @@ Print Assumptions C08_level_swap_handles.
 (* nothing but the two levels is touched: nodes of the other levels keep id, level and
    children, and no node appears there *)
 Theorem C08_level_swap_untouched : forall s i,
-  WF s -> s_kind s = KBdd -> S i < nlevels s ->
+  WF s -> bink (s_kind s) -> S i < nlevels s ->
   forall id nd, nlevel nd <> i -> nlevel nd <> S i ->
     (find_node s id = Some nd <-> find_node (level_swap s i) id = Some nd).
 Proof.
@@ -165,7 +166,7 @@ Print Assumptions C08_level_swap_untouched.
 (* the only nodes that disappear are nodes of the old lower level that were children of
    rewritten nodes and are referenced by no stored node and no handle afterwards *)
 Theorem C08_level_swap_removed_only : forall s i,
-  WF s -> s_kind s = KBdd -> S i < nlevels s ->
+  WF s -> bink (s_kind s) -> S i < nlevels s ->
   forall id nd, find_node s id = Some nd -> find_node (level_swap s i) id = None ->
     nlevel nd = S i /\ In id (dropped_children s i)
     /\ referenced (swap_nodes s i) (s_handles s) id = false.
@@ -174,7 +175,7 @@ Print Assumptions C08_level_swap_removed_only.
 
 (* whatever a stored node of the result refers to is stored in the result *)
 Theorem C08_level_swap_child_ok : forall s i,
-  WF s -> s_kind s = KBdd -> S i < nlevels s ->
+  WF s -> bink (s_kind s) -> S i < nlevels s ->
   forall id nd e, find_node (level_swap s i) id = Some nd -> In e (nchildren nd) ->
     ref_ok (level_swap s i) (eref e).
 Proof. exact level_swap_child_ok. Qed.
@@ -183,7 +184,7 @@ Print Assumptions C08_level_swap_child_ok.
 (* every edge stored before and after denotes the same function of the LEVELS, with the
    entries of the two levels exchanged *)
 Theorem C08_level_swap_sem_levels : forall s i,
-  WF s -> s_kind s = KBdd -> S i < nlevels s ->
+  WF s -> bink (s_kind s) -> S i < nlevels s ->
   forall e c, ref_ok s (eref e) -> ref_ok (level_swap s i) (eref e) -> choice_ok s c ->
     sem_edge (level_swap s i) e (swap_choice i c) = sem_edge s e c.
 Proof. exact level_swap_sem_levels. Qed.
@@ -191,7 +192,7 @@ Print Assumptions C08_level_swap_sem_levels.
 
 (* headline: the Boolean function over the VARIABLES is unchanged *)
 Theorem C08_level_swap_sem_vars : forall s i,
-  WF s -> s_kind s = KBdd -> S i < nlevels s ->
+  WF s -> bink (s_kind s) -> S i < nlevels s ->
   forall e (a : nat -> bool), ref_ok s (eref e) -> ref_ok (level_swap s i) (eref e) ->
     eval_vars (level_swap s i) e a = eval_vars s e a.
 Proof. exact level_swap_sem_vars. Qed.
@@ -199,7 +200,7 @@ Print Assumptions C08_level_swap_sem_vars.
 
 (* in particular every handle (its value is defined) *)
 Theorem C08_level_swap_handles_vars : forall s i,
-  WF s -> s_kind s = KBdd -> S i < nlevels s ->
+  WF s -> bink (s_kind s) -> S i < nlevels s ->
   forall h (a : nat -> bool), In h (s_handles s) ->
     eval_vars (level_swap s i) (snd h) a = eval_vars s (snd h) a
     /\ exists v, eval_vars s (snd h) a = Some v.
@@ -209,9 +210,9 @@ Print Assumptions C08_level_swap_handles_vars.
 (** ** sequences of adjacent swaps; set_var_order *)
 
 Theorem C08_swaps_fold : forall sw s,
-  WF s -> s_kind s = KBdd -> Forall (fun k => S k < nlevels s) sw ->
+  WF s -> bink (s_kind s) -> Forall (fun k => S k < nlevels s) sw ->
   let s' := fold_left level_swap sw s in
-  WF s' /\ s_kind s' = KBdd /\ nlevels s' = nlevels s /\ s_handles s' = s_handles s
+  WF s' /\ s_kind s' = s_kind s /\ nlevels s' = nlevels s /\ s_handles s' = s_handles s
   /\ s_l2v s' = replay sw (s_l2v s)
   /\ (forall h a, In h (s_handles s) ->
         eval_vars s' (snd h) a = eval_vars s (snd h) a /\ exists v, eval_vars s (snd h) a = Some v).
@@ -223,10 +224,10 @@ Print Assumptions C08_swaps_fold.
    the level sort_order assigns to its old level, and the number of swaps is the number of
    inversions of that target (minimal: C08_sort_order_min_inversions) *)
 Theorem C08_set_var_order_model_correct : forall s order,
-  WF s -> s_kind s = KBdd -> NoDup order -> Forall (fun v => v < nlevels s) order ->
+  WF s -> bink (s_kind s) -> NoDup order -> Forall (fun v => v < nlevels s) order ->
   let s' := set_var_order_model s order in
   let target := sort_order (nlevels s) (map (fun v => nth v (s_v2l s) 0) order) in
-  WF s' /\ s_kind s' = KBdd /\ nlevels s' = nlevels s /\ s_handles s' = s_handles s
+  WF s' /\ s_kind s' = s_kind s /\ nlevels s' = nlevels s /\ s_handles s' = s_handles s
   /\ (forall h a, In h (s_handles s) ->
         eval_vars s' (snd h) a = eval_vars s (snd h) a /\ exists v, eval_vars s (snd h) a = Some v)
   /\ (forall v, v < nlevels s -> nth v (s_v2l s') 0 = nth (nth v (s_v2l s) 0) target 0)
@@ -236,7 +237,7 @@ Print Assumptions C08_set_var_order_model_correct.
 
 (* the variables named in the request end up in the requested relative order *)
 Theorem C08_set_var_order_model_respects : forall s order,
-  WF s -> s_kind s = KBdd -> NoDup order -> Forall (fun v => v < nlevels s) order ->
+  WF s -> bink (s_kind s) -> NoDup order -> Forall (fun v => v < nlevels s) order ->
   forall a b, a < b < length order ->
     nth (nth a order 0) (s_v2l (set_var_order_model s order)) 0
     < nth (nth b order 0) (s_v2l (set_var_order_model s order)) 0.
@@ -245,7 +246,7 @@ Print Assumptions C08_set_var_order_model_respects.
 
 (* the reordered diagram is canonical: handles are the same edge iff they denote the same function *)
 Theorem C08_set_var_order_model_canonical : forall s order,
-  WF s -> s_kind s = KBdd -> NoDup order -> Forall (fun v => v < nlevels s) order ->
+  WF s -> bink (s_kind s) -> NoDup order -> Forall (fun v => v < nlevels s) order ->
   forall h1 h2, In h1 (s_handles s) -> In h2 (s_handles s) ->
     (snd h1 = snd h2 <->
      forall c, choice_ok (set_var_order_model s order) c ->
@@ -256,7 +257,7 @@ Print Assumptions C08_set_var_order_model_canonical.
 (* the hypotheses are satisfiable and the swap does something: three variables, two handles;
    swapping levels 0 and 1 rewrites both nodes of level 0, creates two nodes and removes two *)
 Theorem C08_level_swap_example :
-  WF ex_swap /\ s_kind ex_swap = KBdd /\ 1 < nlevels ex_swap
+  WF ex_swap /\ bink (s_kind ex_swap) /\ 1 < nlevels ex_swap
   /\ dep_ids ex_swap 0 = [5; 3]%positive
   /\ find_node (level_swap ex_swap 0) 2 = None
   /\ find_node (level_swap ex_swap 0) 3 = Some (mkNode 0 [ex_e (RN 7); ex_e (RN 1)] 0 1)
